@@ -15,7 +15,7 @@ RULE = (
     "BOTH an acceptance and a rejection were observed and alpha was recomputed from scratch"
 )
 REQUIRED = {"decisions": 3000, "alpha_recomputed": 2000, "accepted": 300, "rejected": 300, "sample_calls": 500,
-            "cells_gibbs": 3, "cells_fastgibbs": 3, "cells_metropolis-hastings": 3, "cells_ind": 3, "alpha_plus_inf_decisions": 5, "alpha_recomputed_mixture": 50, "sweeps_without_mstep": 10}
+            "cells_gibbs": 3, "cells_fastgibbs": 3, "cells_metropolis-hastings": 3, "cells_ind": 3, "alpha_plus_inf_decisions": 5, "alpha_recomputed_mixture": 50, "sweeps_without_mstep": 10, "scales_rebound_between_uses": 8}
 ASSUMPTIONS = [
     "attachment = nodes nll_attach / nll_attach_ind, regularity = each latent variable's own prior node (nll_regul_<v>[_ind]); both re-evaluated from "
     "scratch through the variables' own definitions (the densities themselves are C08's job)",
@@ -109,6 +109,11 @@ def run_shard(spec, ctx):
         try:
             for it in range(1, n_it + 1):
                 algo.current_iteration = it
+                if it in (2, 4) and (spec["k"] + i) % 3 == 1:
+                    # the caller re-tunes the (public) proposal scales of samplers that already served: new tensors, not in-place writes
+                    for s_ in algo.samplers.values():
+                        s_.std = (s_.std * float(rng.choice([0.1, 0.3, 3.0]))).clone()
+                    stats["scales_rebound_between_uses"] = stats.get("scales_rebound_between_uses", 0) + 1
                 algo.temperature_inv = temps[it % len(temps)]
                 algo.temperature = 1.0 / algo.temperature_inv
                 if no_mstep:
